@@ -14,7 +14,10 @@ RULE = ("case = one script line.  W: window-tree / restack-queue lifecycle scrip
         "depth <= 3, ref/unref/close in any order, restack requests left pending, show/hide/focus, flush, key and "
         "mouse events whose handlers run further calls); T: a copy-out call (get_cell_text / get_span / "
         "mockterm get_display_text) into malloc(len) for every len from 0 to two beyond the text; O: lifecycle script "
-        "over pens, strings, render buffers, terminals (mock and xterm) and the toplevel instance.  Every case runs in "
+        "over pens, strings, render buffers, terminals (mock and xterm) and the toplevel instance; R: the pen stack of a render "
+        "buffer (setpen NULL / empty / with attributes at every depth of save and savepen frames, restore, whole-line "
+        "text and erase, clear, reset, flush to an xterm and to the mock terminal, drop; observation = live pens, strings "
+        "and stack frames of the buffer after every call).  Every case runs in "
         "its own forked process under ASan+UBSan with exact allocation accounting and a recoverable LSan check.  "
         "Observation = OK + destroy order + link fields/refcounts/queue of what is left + leak flag + the trace of "
         "client calls executed (also those made by handlers), or the fault kind + step.  The model must reproduce the "
@@ -28,13 +31,16 @@ ASSUMPTIONS = [
     "modelled and tested, not proved); that enough fuel exists (termination) is not proved",
     "all windows of a script have the same geometry (the pointer structure, not the geometry, is explored)",
     "a single root window per script; the harness holds the only client reference to the terminal",
+    "R cases: text and erase calls cover a whole line, so that a line is a single span (span splitting, masks, clips "
+    "and translation belong to C03/C04); pens / frames / strings of a buffer are counted as live blocks of their sizes",
     "malloc does not fail",
     "memory-safety itself is observed at run time by the sanitizers; the theorems are about the ownership model",
 ]
 TRUSTED = [
     "AddressSanitizer/UndefinedBehaviourSanitizer/LeakSanitizer of gcc 12 and the allocation hooks "
     "(__sanitizer_install_malloc_and_free_hooks) report every invalid access / outstanding block of the explored runs",
-    "model coq/LifeDefs.v hand-written after src/window.c (repaired); discipline checker and oracle coq/LifeSpec.v",
+    "model coq/LifeDefs.v hand-written after src/window.c (repaired); discipline checker and oracle coq/LifeSpec.v; "
+    "model coq/LifePenDefs.v hand-written after the pen / string reference counting of src/renderbuffer.c",
     "the harness harness/C08.c (+C08_objs.inc): script interpreter, fork per case, classification of sanitizer reports",
 ]
 
@@ -467,9 +473,38 @@ def gen_O(tier, seed, info):
     info["O"] = {"cases": made}
 
 
+R_TAILS = ["", "x", "x t0", "x t0 f", "x t0 F", "t0 x t1 f", "x x t0 z", "t0 x e0 c F", "x pN t1 x t0 F", "e1 x t1 z t0 f",
+           "t0 s pN t1 x t2 x f"]
+R_OPS = ["s", "S", "x", "x", "pN", "pN", "pE", "pA", "pB", "t0", "t1", "t2", "t3", "e0", "e1", "e2", "e3", "c", "z", "f", "F"]
+
+
+def gen_R(tier, seed, info):
+    """the pen stack of a render buffer: setpen with NULL / an empty pen / pens with attributes at every stack depth
+    (save and savepen frames, with and without a pen change before them), followed by restore, further drawing,
+    flush to an xterm / the mock terminal, reset; then random programs; the buffer is dropped at the end of every case"""
+    rnd = random.Random(seed * 32452843 + 8)
+    made = 0
+    for c in ["R", "R pN", "R s pN x t0 f", "R S pN x e0 F", "R t0 t0 e0 t0 c t1 z", "R t3 e3 t0 f t0 F"]:
+        made += 1
+        yield c
+    for d in range(0, 4):
+        for frames in itertools.product("sS", repeat=d):
+            for pre in ([], ["pA"]):
+                for x in ("pN", "pE", "pA", "pB"):
+                    for tail in R_TAILS:
+                        made += 1
+                        yield " ".join(["R"] + pre + list(frames) + [x] + tail.split())
+    n = 1500 if tier == "quick" else 40000
+    for _ in range(n):
+        made += 1
+        yield "R " + " ".join(rnd.choice(R_OPS) for _ in range(rnd.randint(2, 24)))
+    info["R"] = {"cases": made}
+
+
 def gen(tier, seed, info):
     yield from gen_T(tier, seed, info)
     yield from gen_O(tier, seed, info)
+    yield from gen_R(tier, seed, info)
     yield from gen_W(tier, seed, info)
 
 
@@ -499,12 +534,23 @@ def classify(case, obs):
         return ('T', k, verdict, t[2] if len(t) > 2 else "")
     if t[0] == 'O':
         return ('O', verdict, "".join(sorted(set(o[0] for o in t[1:]))))
+    if t[0] == 'R':
+        depth = maxdepth = 0
+        for o in t[1:]:
+            if o in "sS":
+                depth += 1
+            elif o == "x":
+                depth = max(0, depth - 1)
+            elif o in "zfF":
+                depth = 0
+            maxdepth = max(maxdepth, depth)
+        return ('R', verdict, "".join(sorted(set(o[:2] if o[0] == 'p' else o[0] for o in t[1:]))), maxdepth)
     return None
 
 
 def shrink(case):
     t = case.split()
-    if t[0] not in "WO":
+    if t[0] not in "WOR":
         return
     for i in range(len(t) - 1, 0, -1):
         if t[i] == "-":
